@@ -20,6 +20,10 @@ type vReader struct {
 	failAt int // -1: never
 	reads  int
 	maxEnd int // furthest stream offset any Read call asked for
+	// withErr: the Read call that delivers the last bytes before the end
+	// (or before the fault) returns them together with the error, as
+	// io.Reader allows, instead of on the next call
+	withErr bool
 }
 
 var vErrFault = errors.New("verif: injected read fault")
@@ -51,6 +55,14 @@ func (r *vReader) Read(p []byte) (int, error) {
 	}
 	copy(p[:n], r.data[r.pos:r.pos+n])
 	r.pos += n
+	if r.withErr {
+		if r.failAt >= 0 && r.pos >= r.failAt {
+			return n, vErrFault
+		}
+		if r.pos >= len(r.data) {
+			return n, io.EOF
+		}
+	}
 	return n, nil
 }
 
